@@ -95,6 +95,7 @@ def _info_for(sd, ident, addr):
     info.maxApduLengthAccepted = sd["maxapdu"]
     info.segmentationSupported = sd["seg"]
     info.maxSegmentsAccepted = sd["maxsegs"]
+    info.maxNpduLength = sd.get("maxnpdu")      # what the path carries, when the application has filled it in (19.4)
     info.vendorID = 999
     return info
 
